@@ -1,5 +1,13 @@
 package main
 
+import (
+	"fmt"
+	"os"
+	"path/filepath"
+
+	"gosym/vm"
+)
+
 // The table of checks: which harnesses decide which property, with the bounds
 // of each tier. Bounds registered here are the largest that run clean inside
 // the time budget on the unchanged tree.
@@ -352,4 +360,28 @@ func findProperty(id string) *propertySpec {
 	return nil
 }
 
-func cmdSelftest() int { return 0 }
+// cmdSelftest runs the VM's own regression harnesses (models that were wrong
+// once: atomic.Pointer[T] over unsafe.Pointer, maps.Clone): any failed
+// assertion or aborted path means the engine must not be trusted.
+func cmdSelftest() int {
+	ld, err := loadHarness(filepath.Join(verifDir(), "harness"), []string{"./smoke"})
+	if err != nil {
+		fmt.Fprintln(os.Stderr, "selftest: cannot load:", err)
+		return 2
+	}
+	entry := ld.m.Func(harnessMod+"/smoke", "H_Clone")
+	if entry == nil {
+		fmt.Fprintln(os.Stderr, "selftest: smoke.H_Clone not found")
+		return 2
+	}
+	st := vm.Explore(vm.Config{Machine: ld.m, Entry: entry, Harness: "smoke.H_Clone", Workers: 1, Params: map[string]int{}, KnownOpen: map[string][]string{}})
+	if st.Completed != 1 || st.Failed != 0 || st.Aborted != 0 {
+		fmt.Printf("selftest FAILED: completed=%d failed=%d aborted=%d %v\n", st.Completed, st.Failed, st.Aborted, st.AbortMsgs)
+		for _, f := range st.Failures {
+			fmt.Println("  ", f.AssertID, f.Msg)
+		}
+		return 2
+	}
+	fmt.Println("selftest ok")
+	return 0
+}
